@@ -194,9 +194,13 @@ def diff_lines(base_report: str, new_report: str, job) -> list:
     return changed
 
 
-def run(tier: str) -> int:
+ALL = lambda r_: [r_['out'][k] for k in ('lcoe', 'lcoh', 'lcoc', 'npv', 'ccap', 'coam')] + r_['cf'] + r_['tres'] + [r_['trock']]  # noqa: E731
+
+
+def run(tier: str, only: dict | None = None) -> int:
+    """`only` (replay): judge one recorded case again - {'kind': 'input', 'name', 'user'} or {'kind': 'output', 'name', 'req', 'family'}."""
     res = Result('C06', tier)
-    calibrate = bool(os.environ.get('VERIF_C06_CALIBRATE'))
+    calibrate = bool(os.environ.get('VERIF_C06_CALIBRATE')) and only is None
     r = tlc.run_tlc('UnitTrack', 'MC_UnitTrack.cfg', workers=8, timeout=900)
     tlc.check_mc(r, 'MC_UnitTrack.cfg', ['ReadWithUnit', 'Use', 'ConvertBack', 'Echo'])
     if r['violated']:
@@ -218,6 +222,8 @@ def run(tier: str) -> int:
         if k not in seen:
             seen.add(k)
             uniq.append(j)
+    if only is not None:
+        uniq = [j for j in uniq if only['kind'] == 'input' and (j['name'], j['user']) == (only['name'], only['user'])]
     outs = sim.call_in_pool('harness.c06:input_case', uniq)
     traces = []
     for o in outs:
@@ -228,7 +234,9 @@ def run(tier: str) -> int:
                        'utype': o['utype']})
     # ---- (c) output directives on two bases
     ojobs = [j for lst in sim.call_in_pool('harness.c06:enumerate_outputs', [b for b in bases if b[0] in ('example1', 'example2')]) for j in lst]
-    if tier == 'quick':
+    if only is not None:
+        ojobs = [j for j in ojobs if only['kind'] == 'output' and (j['name'], j['req'], j['family']) == (only['name'], only['req'], only['family'])]
+    elif tier == 'quick':
         random.Random(seed() + 6).shuffle(ojobs)
         ojobs = ojobs[:160]
     base_reports = {o['tag']: o for o in sim.run_many([(f, t) for f, t in bases if f in ('example1', 'example2')], 'harness.c12:project', keep_report=True)}
@@ -275,6 +283,10 @@ def run(tier: str) -> int:
     res.cov['clauses'] = counts
     res.cov['input_cases'] = len(outs)
     res.cov['output_directives'] = len(ojobs)
+    if only is not None:
+        if not traces:
+            raise MachineryFailure(f'replay: the recorded case {only} is no longer enumerated')
+        return res.finish()
     res.sample({'input_case': next((t for t in traces if t['kind'] == 'input' and t['outcome'] == 'ok'), None)})
     res.sample({'output_case': next(({k_: v_ for k_, v_ in t.items()} for t in traces if t['kind'] == 'output' and t['changed']), None)})
     if calibrate:
@@ -310,7 +322,6 @@ def run(tier: str) -> int:
     sample = passing[: (60 if tier == 'quick' else 600)]
     from .rel import Ladders
     L = Ladders()
-    ALL = lambda r_: [r_['out'][k] for k in ('lcoe', 'lcoh', 'lcoc', 'npv', 'ccap', 'coam')] + r_['cf'] + r_['tres'] + [r_['trock']]  # noqa: E731
     for t in sample:
         j = fam_of[(t['name'], t['user'])]
         v_pref = float(convert(cat, Fraction(j['x']), j['user'], j['pref']))
@@ -331,5 +342,12 @@ def run(tier: str) -> int:
 
 
 def replay(path: str) -> int:
-    print(open(path).read()[:3000])
-    return 0
+    """Read / run the recorded (parameter, unit) case or `Units:` directive again through the real code and judge it again."""
+    rp = json.loads(open(path).read())['replay']
+    if 'ladder' in rp:
+        from .rel import replay_ladder
+        return replay_ladder('C06', path, {'C06_same_results': ALL})
+    t = rp['trace']
+    only = ({'kind': 'input', 'name': t['name'], 'user': t['user']} if t['kind'] == 'input'
+            else {'kind': 'output', 'name': t['name'], 'req': t['req'], 'family': t['family']})
+    return run('quick', only)
